@@ -34,12 +34,116 @@ def r1_determinism(ctx):
            "DefaultRandomCoin has state beyond seed/counter: %s" % fields, "winter_crypto::random::default::DefaultRandomCoin", adt["at"])
 
 
+def _is_mask_of_domain(g, op, at):
+    """op = domain_size - 1 computed in g without calls (domain_size = parameter 3 of draw_integers)."""
+    ys = g.slice_of_operand(op, at=at)
+    subs = [dd for l in ys["locals"] for dd in g.defs(l) if dd["kind"] == "assign" and dd["rv"][0] == "bin" and dd["rv"][1].startswith("Sub")]
+    return bool(subs) and 3 in ys["args"] and not ys["calls"] and all(
+        (op_const(dd["rv"][3]) or {}).get("v") == "1" and op_local(dd["rv"][2]) is not None and 3 in g.copy_chain(op_local(dd["rv"][2])) for dd in subs)
+
+
+def _r2_iterator_form(ctx, f):
+    """`(0..1000).take(num_values).map(|_| next()-bytes & mask).collect()`: the same six obligations read off the
+    iterator chain instead of the push loop."""
+    p = ctx.p
+    from ..patterns import upvar_origins, ok_payload_slice
+    cols = [(bi, t) for bi, t in f.calls() if (callee_of(t) or {}).get("name") == "collect" and not f.is_cleanup(bi)]
+    chain = None
+    for bi, t in cols:
+        sl = arg_slice(f, t, 0)
+        nm = names_in(f, sl)
+        if "map" in nm and any(is_call_to(cf.term(b), NEXT) for ck in sl["closures"] for cf in [p.fn(ck)] for b, _ in cf.calls()):
+            chain = (bi, t, sl, nm)
+    if chain is None:
+        raise AnchorLost("draw_integers: neither a push loop nor a map(..).collect() chain drawing from next() found")
+    cbi, ct, sl, nm = chain
+    values = f.copy_chain(ct["dest"][0]) | {ct["dest"][0]} | f.forward_locals([ct["dest"][0]], through_calls=None)
+    # (a) mask
+    ok_mask = False
+    for ck in sl["closures"]:
+        cf = p.fn(ck)
+        ret = cf.backward_slice([0])
+        for l in ret["locals"] | {0}:
+            for d in cf.defs(l):
+                if d["kind"] != "assign" or d["rv"][0] != "bin" or d["rv"][1] != "BitAnd":
+                    continue
+                for x, y in ((d["rv"][2], d["rv"][3]), (d["rv"][3], d["rv"][2])):
+                    xs = cf.slice_of_operand(x, at=(d["bb"], d["si"]))
+                    ys = cf.slice_of_operand(y, at=(d["bb"], d["si"]))
+                    from_next = "from_le_bytes" in names_in(cf, xs) and any(is_call_to(cf.term(b), NEXT) for b in xs["calls"])
+                    mask = False
+                    if not ys["calls"]:
+                        for pf, locs in upvar_origins(p, cf, ys):
+                            if pf.key == f.key:
+                                mask = any(_is_mask_of_domain(f, ["cp", [m]], (cbi, 0)) for m in locs)
+                    if from_next and mask:
+                        ok_mask = True
+    ctx.ob("R2", "values-masked-to-domain", ok_mask,
+           "each collected value = u64::from_le_bytes(next().as_bytes()[..8]) & (domain_size - 1)" if ok_mask else
+           "collected values are not next()-bytes masked with (domain_size - 1)", f, ct["sp"]["at"])
+    pw = [(bi, t) for bi, t in f.calls() if (callee_of(t) or {}).get("name") == "is_power_of_two"]
+    pw_ok = False
+    if pw and 3 in arg_slice(f, pw[0][1], 0)["args"]:
+        for c in f.bool_checks_of(pw[0][0]):
+            if f.must_cross([cbi], cut_edges=c["true_edges"]) and all(not f.can_reach(t, [cbi]) for _, t in c["false_edges"]):
+                pw_ok = True
+    ctx.ob("R2", "domain-size-power-of-two-asserted", pw_ok,
+           "assert!(domain_size.is_power_of_two()) dominates the draws, so the mask is exactly the range [0, domain_size)" if pw_ok else
+           "no dominating power-of-two assertion on domain_size", f)
+    # (b) at most num_values values: take(num_values) in front of the map, nothing else that changes the count
+    tk = [f.term(b) for b in sl["calls"] if (callee_of(f.term(b)) or {}).get("name") == "take"]
+    mp = [b for b in sl["calls"] if (callee_of(f.term(b)) or {}).get("name") == "map"]
+    bounded = len(tk) == 1 and op_local(tk[0]["a"][1]) is not None and 2 in f.copy_chain(op_local(tk[0]["a"][1])) and \
+        bool(mp) and any((callee_of(f.term(b)) or {}).get("name") == "take" for b in arg_slice(f, f.term(mp[0]), 0)["calls"]) and \
+        not (nm & {"filter", "filter_map", "flat_map", "chain", "cycle", "skip", "step_by", "skip_while", "take_while"})
+    ctx.ob("R2", "push-only-while-short", bounded,
+           "take(num_values) in front of the map bounds the number of values drawn (for every num_values including 0)" if bounded else
+           "the iterator chain does not bound the number of values by num_values", f, ct["sp"]["at"])
+    # (c) short draws rejected
+    def len_vs_num(s):
+        def is_len(l):
+            if l is None:
+                return False
+            for x in f.copy_chain(l):
+                for d in f.defs(x):
+                    if d["kind"] == "call" and (callee_of(d["term"]) or {}).get("name") == "len":
+                        return bool(f.slice_of_operand(d["term"]["a"][0])["locals"] & values)
+            return False
+        def is_num(l):
+            return l is not None and 2 in f.copy_chain(l)
+        la, lb = op_local(s["a"]), op_local(s["b"])
+        if is_len(la) and is_num(lb):
+            return False
+        if is_len(lb) and is_num(la):
+            return True
+        return None
+    rej = False
+    for s in cmp_sites(f):
+        sw = len_vs_num(s)
+        if sw is None:
+            continue
+        ok, how, rel = cmp_reject_relation(f, s)
+        if ok and (_SWAP[rel] if sw else rel) in ("Lt", "Ne"):
+            rej = True
+    ctx.ob("R2", "short-draw-rejected", rej,
+           "after the chain: values.len() < num_values -> Err(FailedToDrawIntegers) dominates the Ok exit" if rej else
+           "the Ok exit is not guarded by a length check against num_values", f)
+    ret = ok_payload_slice(f)
+    ctx.ob("R2", "returns-the-drawn-values", bool(ret["locals"] & values), "Ok(values) returns the collected vector", f)
+    mw = [(bi, t) for bi, t in f.calls_to(MERGE_WITH_INT)]
+    good = False
+    if mw:
+        bi, t = mw[0]
+        good = "seed" in slice_field_bases(arg_slice(f, t, 0)) and 4 in arg_slice(f, t, 1)["args"] and f.must_cross([cbi], cut_blocks=[bi])
+    ctx.ob("R2", "nonce-absorbed-first", good, "self.seed = merge_with_int(self.seed, nonce) dominates the draws", f)
+
+
 def r2_draw_integers(ctx):
     f = ctx.p.fn(COIN + "draw_integers")
     loops = for_loops(f)
     pushes = [(bi, t) for bi, t in f.calls() if (callee_of(t) or {}).get("name") == "push" and not f.is_cleanup(bi)]
     if not pushes or not loops:
-        raise AnchorLost("draw_integers: push loop not found")
+        return _r2_iterator_form(ctx, f)
     pbi, pt = pushes[0]
     L = [x for x in loops if pbi in x["body"]]
     if not L:
